@@ -4,16 +4,24 @@ listed checks (own property first, quick tier, --no-evidence), undo with git che
 change's meta.json and in seeded/INDEX.md.  Nothing is ever committed in /repo.  Run it only when nothing else uses /repo."""
 import json, os, subprocess, sys, glob, time
 V = '/verif'
+TREE = '/repo'
+if len(sys.argv) > 2 and sys.argv[1] == '--tree':
+    # a persistent scratch worktree of /repo (git -C /repo worktree add --detach DIR HEAD): same procedure, /repo stays free
+    TREE = sys.argv[2]
+    del sys.argv[1:3]
+ENV = dict(os.environ)
+if TREE != '/repo':
+    ENV['VERIF_REPO'] = TREE
 names = sys.argv[1:] or sorted(os.path.basename(p) for p in glob.glob(V + '/seeded/*') if os.path.isdir(p))
 rows = []
 for name in names:
     d = os.path.join(V, 'seeded', name)
     meta = json.load(open(d + '/meta.json'))
     pid = meta['property']
-    extra = meta.get('also_run', [])
-    st = subprocess.run(['git', '-C', '/repo', 'status', '--porcelain', '--untracked-files=no'], stdout=subprocess.PIPE).stdout.decode().strip()
-    assert not st, '/repo is not clean: ' + st
-    r = subprocess.run(['git', '-C', '/repo', 'apply', d + '/patch.diff'], stderr=subprocess.PIPE)
+    extra = meta.get('also_run', []) or [c for c, v in (meta.get('checks_run_against_it', {}).get('other_checks_exit') or {}).items() if v == 1 and c not in ('C12', 'C13', 'C14', 'C17') ][:2]
+    st = subprocess.run(['git', '-C', TREE, 'status', '--porcelain', '--untracked-files=no'], stdout=subprocess.PIPE).stdout.decode().strip()
+    assert not st, TREE + ' is not clean: ' + st
+    r = subprocess.run(['git', '-C', TREE, 'apply', d + '/patch.diff'], stderr=subprocess.PIPE)
     if r.returncode:
         print(name, 'patch does not apply to the current /repo:', r.stderr.decode()[:200])
         rows.append((name, pid, 'patch does not apply', ''))
@@ -22,19 +30,19 @@ for name in names:
     try:
         for c in [pid] + [c for c in extra if c != pid]:
             t0 = time.time()
-            p = subprocess.run([V + '/check', c, '--no-evidence'], stdout=subprocess.PIPE, stderr=subprocess.STDOUT, cwd=V)
+            p = subprocess.run([V + '/check', c, '--no-evidence'], stdout=subprocess.PIPE, stderr=subprocess.STDOUT, cwd=V, env=ENV)
             out = p.stdout.decode()
             classes = [l.strip().split(' count=')[0].replace('class=', '') for l in out.splitlines() if l.strip().startswith('class=')]
             res[c] = dict(exit=p.returncode, violation_classes=classes[:12], wall_s=round(time.time() - t0, 1))
             print(name, c, 'exit', p.returncode, classes[:3])
     finally:
-        subprocess.run(['git', '-C', '/repo', 'checkout', '--', '.'])
-    meta['official_run'] = dict(how='git -C /repo apply seeded/%s/patch.diff; ./check <ID> --no-evidence (quick tier, rebuilds /repo in place); git -C /repo checkout -- .' % name,
-                                repo_head=subprocess.run(['git', '-C', '/repo', 'log', '--format=%h', '-1'], stdout=subprocess.PIPE).stdout.decode().strip(),
+        subprocess.run(['git', '-C', TREE, 'checkout', '--', '.'])
+    meta['official_run'] = dict(tree=TREE, how='git -C <tree> apply seeded/%s/patch.diff; ./check <ID> --no-evidence (quick tier, rebuilds /repo in place); git -C /repo checkout -- .' % name,
+                                repo_head=subprocess.run(['git', '-C', TREE, 'log', '--format=%h', '-1'], stdout=subprocess.PIPE).stdout.decode().strip(),
                                 results=res)
     meta['detected'] = res.get(pid, {}).get('exit') == 1
     json.dump(meta, open(d + '/meta.json', 'w'), indent=1)
     rows.append((name, pid, 'DETECTED' if meta['detected'] else 'MISSED',
                  '; '.join('%s: %s' % (c, ('exit 1 ' + ', '.join(v['violation_classes'][:2])) if v['exit'] == 1 else 'exit %d' % v['exit']) for c, v in res.items())))
-subprocess.run([V + '/check', '--setup'], stdout=subprocess.DEVNULL)   # rebuild the unchanged tree
+subprocess.run([V + '/check', '--setup'], stdout=subprocess.DEVNULL, env=ENV)   # rebuild the unchanged tree
 print('\n'.join('%-45s %s %s' % (r[0], r[1], r[2]) for r in rows))
